@@ -51,7 +51,11 @@ def main():
         meta["last_check_result"] = res["result"]
         meta["what_was_run"] = "python3 -m vf.seedrun %s  (scratch worktree of /repo + patch; VERIF_REPO=<worktree> ./check %s --tier quick)" % (sid, res["property"])
         json.dump(meta, open(mp, "w"), indent=1)
-    json.dump(out, open(os.path.join(ROOT, "seeded", "RESULTS.json"), "w"), indent=1)
+    rp = os.path.join(ROOT, "seeded", "RESULTS.json")
+    prev = {r["seed"]: r for r in (json.load(open(rp)) if os.path.exists(rp) else [])}
+    for r in out:
+        prev[r["seed"]] = r
+    json.dump([prev[k] for k in sorted(prev)], open(rp, "w"), indent=1)
 
 
 if __name__ == "__main__":
